@@ -551,6 +551,24 @@ def trusted_base(prop_mod) -> List[str]:
     return base
 
 
+def _start_watchdog(prop: str, tier: str, replay: bool) -> None:
+    """A check must never hang: past the deadline (VERIF_DEADLINE_S, default 20 min quick / 90 min
+    thorough / 10 min replay) report an infrastructure error and exit 2 — never a VIOLATION line."""
+    import threading
+    try:
+        limit = float(os.environ.get("VERIF_DEADLINE_S", "0")) or (600 if replay else 1200 if tier == "quick" else 5400)
+    except ValueError:
+        limit = 1200
+
+    def _bark():
+        print(f"INFRA-ERROR check {prop} exceeded its time limit of {int(limit)} s (hang or overload); no verdict", flush=True)
+        os._exit(2)
+
+    t = threading.Timer(limit, _bark)
+    t.daemon = True
+    t.start()
+
+
 def main(argv: List[str]) -> int:
     import argparse
     ap = argparse.ArgumentParser()
@@ -568,6 +586,7 @@ def main(argv: List[str]) -> int:
     os.environ[GUARD] = "1"
     os.environ.setdefault("CI", "true")
     ctx = Ctx(prop, tier, seed)
+    _start_watchdog(prop, tier, bool(args.replay))
     os.environ["CLEMATIS_LOG_DIR"] = str(ctx.scratch / "logs")
     os.environ["CLEMATIS_LOGS_DIR"] = str(ctx.scratch / "logs")
     try:
